@@ -43,6 +43,7 @@ func run_writer(args []string){
 	for ;; {
     buf := make([]byte, 4)
     if _, err := gio.ReadFull(input, buf); err != nil {
+				verifEvent("cexit", "trunc", 0)
         return
     }
 
@@ -51,6 +52,7 @@ func run_writer(args []string){
     msg := make([]byte, size)
     if _, err := gio.ReadFull(input, msg); err != nil {
 				fmt.Println(err)
+				verifEvent("cexit", "trunc", 1)
         return
     }
 
@@ -59,6 +61,7 @@ func run_writer(args []string){
 			log.Fatalln("Failed to parse model data:", err)
 		}
 
+		verifEvent("cframe", "model", data.Model, "loc", int(data.StartingLocation), "cells", int(data.Cells), "bytes", int(size))
 		if data.Cells == 0 {
 			continue
 		}
@@ -93,6 +96,7 @@ func run_writer(args []string){
 			}
 		}
 
+		verifEvent("cwritten", "model", data.Model, "loc", int(data.StartingLocation))
 		// Construct Arrays
 
 		// data.Cells = int32(gen.Count);
